@@ -27,7 +27,7 @@ Proof.
   destruct (run E D apps st evs) as [[stf rec] num]. exact (proj1 H Hs).
 Qed.
 
-From Lospan Require Import Model.Steps Proof.SchedDataProof.
+From Lospan Require Import Model.Steps Model.Join Proof.SchedDataProof Proof.SessionProof.
 (* Concurrent clause ("however the copies arrive ... concurrently through several gateways"). ANY number of
    handlers working at the same time on frames that carry one counter (copies of one uplink), interleaved
    operation by operation in EVERY order and cut after any number of operations, on a strict-counter device:
@@ -102,6 +102,21 @@ Proof. exact uplink_is_the_device_step. Qed.
 Theorem C03_table_stays_keyed :
   forall t e st, tab_wf t -> (forall r, ds_row st = Some r -> d_eui r = e) -> tab_wf (dt_put t e st).
 Proof. exact tab_wf_put. Qed.
+(* A session ends where the next begins: while a join of the device is processed, handlers of uplinks of the session it is
+   leaving (frames that do not verify under the key the join derives) may run at any point - one join handler and ANY number of
+   such uplink handlers, interleaved operation by operation in EVERY order and cut anywhere. Whenever the row holds the new
+   session key afterwards its uplink counter is 0: no frame of the old session is counted in the new one (the compare-and-store
+   is bound to the session key the frame verified under). *)
+Theorem C03_old_session_frames_do_not_move_the_new_counter :
+  forall (E D : list N -> list N -> list N) apps cfg jf jrx appnonce newaddr (ups : list (frame * rxpacket * nat * N)) sched fuel st r acc,
+    let knew := nwkskey_from_nonces E (d_appkey r) appnonce (cfg_netid cfg) (jr_devnonce (jr jf)) in
+    ds_row st = Some r -> d_nwkskey r <> knew ->
+    Forall (fun u => forall dev, d_nwkskey dev = knew -> mic_ok E (fst (fst (fst u))) (rx_raw (snd (fst (fst u)))) dev = false) ups ->
+    forall r', ds_row (fst (interleaveN apps sched fuel st
+        (join_prog E D cfg jf jrx appnonce newaddr :: map (fun u => uplink_prog E D (fst (fst (fst u))) (snd (fst (fst u))) (snd (fst u)) (snd u)) ups) acc)) = Some r' ->
+      d_nwkskey r' = knew -> d_fup r' = 0%N.
+Proof. exact stragglers_leave_the_new_uplink_counter_alone. Qed.
+
 
 Print Assumptions C03_step.
 Print Assumptions C03_seq.
@@ -113,3 +128,4 @@ Print Assumptions C03_two_handlers_is_an_instance.
 Print Assumptions C03_two_copies_recorded_once.
 Print Assumptions C03_counter_never_moves_back_in_any_history.
 Print Assumptions C03_redeliveries_recorded_once_in_any_history.
+Print Assumptions C03_old_session_frames_do_not_move_the_new_counter.
